@@ -3,13 +3,15 @@
 usage: confirm_mut.py <prop> <k> [--no-tests]   (reads /tmp/wt/<prop>/_out/m<k>.{diff,json}, m<k>_demo.py)"""
 import json, os, shutil, subprocess, sys
 prop, k = sys.argv[1], sys.argv[2]
+outdir = next((a for a in sys.argv[3:] if not a.startswith("--")), "_out")
+tag = "" if outdir == "_out" else "r" + outdir.replace("_out", "")
 wt = f"/tmp/wt/{prop}"
-out = f"{wt}/_out"
+out = f"{wt}/{outdir}"
 env = dict(os.environ, PYTHONPATH=wt)
 def sh(cmd, **kw):
     return subprocess.run(cmd, cwd=wt, env=env, capture_output=True, text=True, **kw)
 def clean():
-    sh(["git", "checkout", "--", "."]); sh(["git", "clean", "-fdq", "-e", "_out"])
+    sh(["git", "checkout", "--", "."]); sh(["git", "clean", "-fdq", "-e", "_out", "-e", "_out2", "-e", "_out3"])
 clean()
 # make the worktree match /repo HEAD (fixes may have been committed since it was created)
 head = subprocess.run(["git", "-C", "/repo", "rev-parse", "HEAD"], capture_output=True, text=True).stdout.strip()
@@ -28,7 +30,7 @@ ok = d0.returncode == 0 and d1.returncode != 0 and ("passed" in tests and "faile
 print(f"{prop} m{k}: demo clean exit={d0.returncode} with-change exit={d1.returncode} tests: {tests} -> {'CONFIRMED' if ok else 'REJECTED'}")
 if ok:
     meta = json.load(open(f"{out}/m{k}.json"))
-    dst = f"/verif/seeded/{prop}-m{k}"
+    dst = f"/verif/seeded/{prop}-{tag}m{k}"
     os.makedirs(dst, exist_ok=True)
     shutil.copy(f"{out}/m{k}.diff", f"{dst}/patch.diff")
     shutil.copy(f"{out}/m{k}_demo.py", f"{dst}/demo.py")
